@@ -59,7 +59,14 @@ fn formatted_quoted_string_from(s: &str) -> Result<&str, StunError> {
 
     let mut res = s;
     if let Some(pos) = skip_trailing_characteres(s) {
-        res = &s[..s.len() - pos];
+        let mut end = s.len() - pos;
+        // A removable character that follows an unpaired backslash is the second
+        // half of a `quoted-pair`: it belongs to the text and must not be trimmed
+        let backslashes = s[..end].chars().rev().take_while(|c| *c == '\\').count();
+        if pos > 0 && backslashes % 2 == 1 {
+            end += 1;
+        }
+        res = &s[..end];
     }
 
     Ok(res)
